@@ -449,6 +449,10 @@ def exec_rotations(trace, ctx):
         else:
             axis = np.array(gen.unit_vec(rng)) * norm
         theta = rng.choice([rng.uniform(-20, 20), rng.uniform(-20, 20), 0.0, math.pi, -math.pi, 2 * math.pi, rng.uniform(-1e-8, 1e-8)])
+        if rep % 7 == 3:
+            # whole-number angles as Python ints, others as numpy scalars
+            theta = rng.choice([0, 1, -3, 7, np.float64(theta)])
+            ctx.probe("angle_as_int_or_numpy_scalar")
         try:
             raw = rotation_matrix(arg(axis), theta)
             M = np.array(raw, dtype=float)
@@ -463,7 +467,9 @@ def exec_rotations(trace, ctx):
             b = rng.uniform(-20, 20)
             Mb = np.array(rotation_matrix(arg(axis), b), dtype=float)
             Mab = np.array(rotation_matrix(arg(axis), theta + b), dtype=float)
-            Mscaled = np.array(rotation_matrix(arg(axis * rng.choice([1e-3, 7.0, 1e4])), theta), dtype=float)
+            # (another length of the same axis, inside the stated range of norms 1e-6 .. 1e6)
+            fac = rng.choice([f for f in (1e-3, 7.0, 1e4, 0.3) if 1e-6 <= norm * f <= 1e6])
+            Mscaled = np.array(rotation_matrix(arg(axis * fac), theta), dtype=float)
             Mlist = np.array(rotation_matrix(list(axis), theta), dtype=float) if rng.random() < 0.2 else M
             if rep % 8 == 0:
                 # other argument forms of the same axis: tuple, integer array (coordinate axes), float32 (exactly
@@ -478,7 +484,7 @@ def exec_rotations(trace, ctx):
                 uax = np.abs(iax).astype(np.uint8)
                 Mu = np.array(rotation_matrix(uax, theta), dtype=float)
                 Muf = np.array(rotation_matrix(uax.astype(float), theta), dtype=float)
-                big = (iax * rng.choice([300, 70000, 500000])).astype(np.int32)
+                big = (iax * rng.choice([300, 70000, 300000])).astype(np.int32)      # (norm below 1e6)
                 Mb32 = np.array(rotation_matrix(big, theta), dtype=float)
                 if max(np.max(np.abs(Mu - Muf)), np.max(np.abs(Mb32 - Mf))) > tol:
                     ctx.violate("C17", "rotation-argument-form", f"the matrix for axis {iax.tolist()} depends on the integer type / "
@@ -518,7 +524,8 @@ def exec_frames(trace, ctx):
         ctx.probe("points_buffer_reused_in_place")
     for rep in range(40):
         scale = 2.0 ** rng.randint(-10, 10)
-        kind = rng.choice(["generic", "axis", "diagonal", "intdir", "numerically", "coincident_middle", "generic"])
+        kind = rng.choice(["generic", "axis", "diagonal", "intdir", "numerically", "coincident_middle", "generic",
+                           "band", "band", "coincident_last", "far", "grid"])
         if kind == "generic":
             while True:
                 pts = [np.array(gen.rvec(rng, 1.0)) * scale for _ in range(3)]
@@ -533,6 +540,42 @@ def exec_frames(trace, ctx):
             R = gen.random_rotation(rng)
             t = np.array(gen.rvec(rng, 30.0))
             pts = [(R @ np.array(x)) * scale + t for x in p]
+        elif kind == "band":
+            # NEARLY collinear: the angle at the first point anywhere between rounding noise and the well-conditioned range
+            a = np.array(gen.rvec(rng, 1.0)) * scale
+            e1 = np.array(gen.unit_vec(rng))
+            u = np.cross(e1, np.array(gen.unit_vec(rng)))
+            if np.linalg.norm(u) < 0.1:
+                u = np.cross(e1, np.array([0.3, -0.5, 0.8]))
+            u /= np.linalg.norm(u)
+            th = 10 ** rng.uniform(-13, -2)
+            L1, L2 = rng.uniform(0.05, 2) * scale, rng.uniform(0.05, 2) * scale
+            pts = [a, a + L1 * (rng.choice([-1, 1]) * math.cos(th) * e1 + math.sin(th) * u), a + L2 * e1]
+        elif kind == "coincident_last":
+            a = np.array(gen.rvec(rng, 1.0)) * scale
+            b = a + np.array(gen.unit_vec(rng)) * scale * rng.uniform(0.01, 2)
+            pts = [a, b, b.copy()]
+        elif kind == "far":
+            # a generic triple far from the origin (a molecule somewhere in a large box)
+            from sim.models import XMapModel
+            t = np.array(gen.rvec(rng, 1.0)) * rng.choice([30.0, 300.0, 1000.0])
+            while True:
+                pts = [np.array(gen.rvec(rng, 1.0)) * min(scale, 4.0) + t for _ in range(3)]
+                if XMapModel.sin_angle(pts[0], pts[1], pts[2]) > 2e-3 and np.linalg.norm(pts[2] - pts[0]) > 1e-3 * min(scale, 4.0):
+                    break
+        elif kind == "grid":
+            # NOT collinear but aligned with the coordinate axes: lattice points, often in one coordinate plane
+            from sim.models import XMapModel
+            planar = rng.random() < 0.5
+            ax = rng.randrange(3)
+            while True:
+                ipts = [[rng.randint(-6, 6) for _ in range(3)] for _ in range(3)]
+                if planar:
+                    for q in ipts:
+                        q[ax] = ipts[0][ax]
+                pts = [np.array(q, dtype=float) * scale / 8.0 for q in ipts]
+                if ipts[0] != ipts[2] and XMapModel.sin_angle(pts[0], pts[1], pts[2]) > 2e-3:
+                    break
         else:
             a = np.array(gen.rvec(rng, 1.0)) * scale
             b = a + np.array(gen.unit_vec(rng)) * scale * rng.uniform(0.01, 2)
